@@ -1,6 +1,7 @@
 import MwVerif.Lemmas.Templ.Eval
 import MwVerif.Lemmas.Expr.Rpn
 import MwVerif.Gen.ExprOps
+import MwVerif.Lemmas.Args.Split
 /-!
 # C04 — template expansion computes what the template language says (evaluator part)
 
@@ -411,3 +412,29 @@ example : (Ast.bin "+" (.num 1) (.bin "+" (.num 2) (.num 3))).ok Gen.ExprOps.tab
   decide +kernel
 
 end MwVerif.Expr
+
+namespace MwVerif.Args
+
+/-- **C04 (argument splitting loses nothing).**  The arguments `_parse_args` returns, joined by `|`
+(the name/value marks written as `=`), are the children it was given — for every list of children,
+with or without `[[ ]]`, balanced or not. -/
+theorem c04_args_join (appendArg : Bool) (children : List Ch) :
+    join (parseArgs appendArg children) = children := by
+  unfold parseArgs
+  rw [join_go children 0 [] [] appendArg (fun h => absurd rfl h)]
+  simp [joinOpen, join]
+
+/-- **C04 (arguments are split exactly at the top-level `|`, names exactly at the top-level `=`).**
+In every argument, read from link depth 0, a `|` occurs only inside `[[ … ]]`, an `=` outside
+`[[ … ]]` is the name/value mark and an `=` inside stays text. -/
+theorem c04_args_well_split (appendArg : Bool) (children : List Ch) :
+    ∀ a ∈ parseArgs appendArg children, marksOk 0 a = true := by
+  unfold parseArgs
+  exact go_marks children 0 [] [] appendArg (by simp) rfl rfl
+
+/-- `a|[[b|c]]|x=1`: three arguments, the `|` of the link stays inside the second. -/
+example : parseArgs false [.other 0, .pipe, .lopen, .other 1, .pipe, .other 2, .lclose, .pipe, .other 3, .eq, .other 4]
+    = [[.ch (.other 0)], [.ch .lopen, .ch (.other 1), .ch .pipe, .ch (.other 2), .ch .lclose],
+       [.ch (.other 3), .eqmark, .ch (.other 4)]] := by decide
+
+end MwVerif.Args
